@@ -354,6 +354,9 @@ class Interp:
             return ctor.fn(ctx, *args, **kwargs)
         if callable(f) and getattr(f, '_lvc_native', False):
             return f(ctx, *args, **kwargs)
+        if type(f).__name__ == 'InterpObj':
+            from .nplib import _interp_call
+            return _interp_call(ctx, f, *args)
         raise Unsupported('call of %r' % (f,))
 
     def bind(self, ctx, func, args, kwargs, frame_module):
@@ -795,7 +798,12 @@ class Interp:
                 raise Raised('ZeroDivisionError')
             return
         if not ctx.known(b != 0):
-            ctx.require('safe.div_nonzero', S.ne(b, 0))
+            if z3.is_real(b):
+                # numpy float division by zero gives inf / nan with a warning, not an exception; the
+                # idealised reals have no such values: the divisor is assumed non-zero (listed assumption)
+                ctx.assume(b != 0, 'A2: a floating-point divisor is assumed non-zero (numpy would give inf/nan)')
+            else:
+                ctx.require('safe.div_nonzero', S.ne(b, 0))
 
     def power(self, ctx, a, b):
         lib = self.world.library.get('op.pow')
